@@ -278,6 +278,22 @@ fn well_formed(a: &Args, out: &mut Out, r: &mut Rng) {
             }
         }
     }
+    // ---- (ii') lists with messages above 64 KiB cut the way socket reads cut them (fixed read sizes):
+    //      the read that completes a big message also carries the beginning of the next frame ------
+    for (li, lens) in [vec![70_000usize, 70_000, 5], vec![65_536, 65_537, 0, 1], vec![200_000, 70_000, 3, 66_000], vec![66_000, 66_000, 66_000], vec![131_072, 1, 131_073]].iter().enumerate() {
+        let msgs: Vec<Vec<u8>> = lens.iter().enumerate().map(|(i, l)| pattern((li + i) % 5, *l)).collect();
+        let stream: Vec<u8> = msgs.iter().flat_map(|m| frame(m)).collect();
+        for read in [65_535usize, 16_384, 100_000, 70_004, 1 << 17] {
+            let cuts: Vec<usize> = (1..).map(|k| k * read).take_while(|p| *p < stream.len()).collect();
+            wf_case(&mut out, &msgs, &cut(&stream, &cuts), "wf_big_messages_fixed_read_sizes");
+        }
+        // and one cut inside each following frame (prefix or payload)
+        let mut off = 0;
+        for m in &msgs[..msgs.len() - 1] {
+            off += frame(m).len();
+            for d in [1usize, 2] { if off + d < stream.len() { wf_case(&mut out, &msgs, &cut(&stream, &[off + d]), "wf_big_messages_cut_in_next_frame"); } }
+        }
+    }
     // ---- (iii) random well-formed lists and cuts ------------------------------------------------
     for _ in 0..(if a.thorough { 50_000 } else { 400 }) {
         let nm = r.range(1, 6) as usize;
